@@ -425,6 +425,29 @@ func verifC16_ReconnectThenSubscribe() {
 	verifCover("resumed-without-subscriptions")
 }
 
+// verifC17_MQTTKickedClientFreesSlot: "capacity released by a closed connection becomes usable
+// again" when it is the BROKER that closes a client (a pipeline's disconnect verdict, a write
+// error, a lost session): once the connection has ended the client is no longer counted, and
+// the next CONNECT at the cap is accepted.
+func verifC17_MQTTKickedClientFreesSlot() {
+	b := vC16Broker(1)
+	c1 := vConnect("a", verifBool("a.cleanSession"), "")
+	go b.handleConn(c1)
+	verifQuiesce()
+	cl := b.clients["a"]
+	verifAssert(c1.connack == int(packets.Accepted) && cl != nil, "connected")
+	cl.close() // the broker closes the client
+	verifQuiesce()
+	close(c1.drop) // the connection ends (the peer notices, or the broker's close reaches it)
+	verifQuiesce()
+	verifAssert(len(b.clients) == 0, "the-cap-counts-exactly-the-connected-clients")
+	c2 := vConnect("b", true, "")
+	go b.handleConn(c2)
+	verifQuiesce()
+	verifAssert(c2.connack == int(packets.Accepted), "released-capacity-is-usable-again")
+	verifCover("kicked-client-freed-its-slot")
+}
+
 // verifC17_MQTTCapReturning: the cap counts CONNECTED clients; a session the broker still keeps
 // for a client that went away (cleanSession=false) holds no slot and gives no right to one: with
 // the broker full, the returning client's CONNECT is refused like any other.
